@@ -30,13 +30,13 @@ def workdir(tag):
     os.makedirs(d, exist_ok=True)
     return d
 
-def run_driver(bdir, script_path, trace_path, timeout=600, binary="mxdrive"):
+def run_driver(bdir, script_path, trace_path, timeout=600, binary="mxdrive", extra=()):
     env = dict(os.environ)
     env["ASAN_OPTIONS"] = "detect_leaks=1:abort_on_error=0:exitcode=77:allocator_may_return_null=1"
     env["UBSAN_OPTIONS"] = "halt_on_error=1:exitcode=78"
     t0 = time.time()
     try:
-        p = subprocess.run([os.path.join(bdir, binary), "-s", script_path, "-t", trace_path],
+        p = subprocess.run([os.path.join(bdir, binary), "-s", script_path, "-t", trace_path] + list(extra),
                            capture_output=True, text=True, timeout=timeout, env=env)
         rc, err = p.returncode, p.stderr
     except subprocess.TimeoutExpired as e:
@@ -50,7 +50,7 @@ def shard(lines_per_episode, nshards):
         sh[i % nshards].append(e)
     return [s for s in sh if s]
 
-def run_all(bdir, wd, shards, render, timeout=900, nproc=NCPU, allow_nosession=False):
+def run_all(bdir, wd, shards, render, timeout=900, nproc=NCPU, allow_nosession=False, extra=()):
     """shards: list of lists of episodes; render(episodes, start_id)->lines. returns list of run dicts"""
     jobs = []
     start = 0
@@ -62,7 +62,7 @@ def run_all(bdir, wd, shards, render, timeout=900, nproc=NCPU, allow_nosession=F
             f.write("\n".join(lines) + "\n")
         jobs.append((sp, os.path.join(wd, "s%03d.nd" % i), eps))
     with ThreadPoolExecutor(max_workers=nproc) as ex:
-        futs = [ex.submit(run_driver, bdir, sp, tp, timeout) for sp, tp, _ in jobs]
+        futs = [ex.submit(run_driver, bdir, sp, tp, timeout, "mxdrive", extra) for sp, tp, _ in jobs]
         res = [f.result() for f in futs]
     for r, (_, _, eps) in zip(res, jobs):
         r["episodes"] = eps
